@@ -130,6 +130,10 @@ def main(tier, seed, replay):
         c.add('world', 1, 1, 0, 0, '-', path)
         threads = rng.sample([2, 4, 8, 16, 32], 2 if quick else 5)
         idx = [(t, c.add('stress', 1, poolfn, t, rounds, rng.randrange(1 << 30))) for t in threads]
+        if k % 3 == 0:
+            # the same pool (every call with its own property list) through properties_2d / properties_3d of the C interface
+            c.add('c_create', 1, 1, -1, '-', path)
+            idx.append((8, c.add('stress_c', 1, poolfn, 8, rounds, rng.randrange(1 << 30))))
         cases.append(c)
         plan.append((c, path, idx))
     # self test: a random-model world must make the detector speak
